@@ -4,7 +4,8 @@
    elements; [res] is Ok / Panic kind / OutOfFuel (Slice/SliceUtilModel.v, SliceUtilSpec.v). *)
 From Coq Require Import ZArith List Bool Permutation.
 Import ListNotations.
-From Mds Require Import Slice.SliceUtilModel Slice.SliceUtilSpec Slice.SliceUtilProofs Slice.SliceUtilProofsRotate.
+From Mds Require Import Slice.SliceUtilModel Slice.SliceUtilSpec Slice.SliceUtilProofs Slice.SliceUtilProofsRotate
+  Slice.SliceUtilProofsChunks Slice.SliceUtilProofsPartition.
 Local Open Scope Z_scope.
 
 (* At: for -len <= i < len the element at i, negative i counting from the end; no panic. *)
@@ -95,4 +96,71 @@ Theorem C17_rotate_view : forall (T : Type) (b : list T) (v : view) (k : Z),
 Proof. exact @rotate_view. Qed.
 Print Assumptions C17_rotate_view.
 Example C17_rotate_view_ex : rotate [9; 1; 2; 3; 8; 7] (mkView 1 3 4) 1 = Ok [9; 3; 1; 2; 8; 7].
+Proof. reflexivity. Qed.
+
+(* Partition(vs, keep), for every base array, every view in it and every predicate: no panic, no
+   fuel exhaustion; the result starts where vs starts and holds exactly the kept elements in their
+   original order; appending to it cannot overwrite an element of vs (its capacity equals its
+   length whenever vs is not empty); vs as a whole is a permutation of its original contents; and
+   nothing outside vs changes. *)
+Theorem C17_partition : forall (T : Type) (keep : T -> bool) (b : list T) (v : view),
+  valid_view b v ->
+  exists b' r, partition keep b v = Ok (b', r) /\
+    voff r = voff v /\
+    window b' r = filter keep (window b v) /\
+    can_overwrite v r = false /\
+    (0 < vlen v -> vcap r = vlen r) /\
+    Permutation (window b' v) (window b v) /\
+    firstn (Z.to_nat (voff v)) b' = firstn (Z.to_nat (voff v)) b /\
+    skipn (Z.to_nat (voff v + vlen v)) b' = skipn (Z.to_nat (voff v + vlen v)) b.
+Proof. exact @partition_correct. Qed.
+Print Assumptions C17_partition.
+Example C17_partition_ex :
+  partition Z.even [99; 6; 1; 3; 2; 8; 4; 5; 98] (mkView 1 7 8)
+  = Ok ([99; 6; 2; 8; 4; 3; 1; 5; 98], mkView 1 4 4).
+Proof. reflexivity. Qed.
+
+(* Chunks(vs, n), n >= 0: no panic; consecutive subslices whose concatenation is vs; appending to
+   any of them cannot overwrite an element of vs; for n > 0 all but the last have length exactly n
+   and the last between 1 and n (0 only when vs is empty); for n = 0 the single chunk vs. *)
+Theorem C17_chunks : forall (T : Type) (b : list T) (v : view) (n : Z),
+  valid_view b v -> 0 <= n ->
+  exists cs, chunks v n = Ok cs /\
+    concat (map (window b) cs) = window b v /\
+    tiles (voff v) cs (voff v + vlen v) /\
+    Forall (fun c => can_overwrite v c = false) cs /\
+    (0 < n -> chunk_lens_ok (vlen v) n (map vlen cs)) /\
+    (n = 0 -> cs = [v]).
+Proof. exact @chunks_doc. Qed.
+Print Assumptions C17_chunks.
+Example C17_chunks_ex : chunks (mkView 2 7 9) 3 = Ok [mkView 2 3 3; mkView 5 3 3; mkView 8 1 1].
+Proof. reflexivity. Qed.
+
+Theorem C17_chunks_panics : forall (v : view) (n : Z), n < 0 -> chunks v n = Panic PDocMax.
+Proof. exact chunks_negative. Qed.
+Print Assumptions C17_chunks_panics.
+Example C17_chunks_panics_ex : chunks (mkView 2 7 9) (-1) = Panic PDocMax.
+Proof. reflexivity. Qed.
+
+(* Batches(vs, n), n >= 0 (after repair F3: also for the empty slice): no panic; exactly
+   min(n, len) consecutive subslices; for n > 0 their concatenation is vs; appending to any of them
+   cannot overwrite an element of vs; any two lengths differ by at most one. *)
+Theorem C17_batches : forall (T : Type) (b : list T) (v : view) (n : Z),
+  valid_view b v -> 0 <= n ->
+  exists cs, batches v n = Ok cs /\
+    zlen cs = Z.min n (vlen v) /\
+    (0 < n -> concat (map (window b) cs) = window b v) /\
+    (0 < n -> tiles (voff v) cs (voff v + vlen v)) /\
+    Forall (fun c => can_overwrite v c = false) cs /\
+    (forall c c', In c cs -> In c' cs -> - 1 <= vlen c - vlen c' <= 1).
+Proof. exact @batches_doc. Qed.
+Print Assumptions C17_batches.
+Example C17_batches_ex : batches (mkView 2 7 9) 3 = Ok [mkView 2 3 3; mkView 5 2 2; mkView 7 2 2]
+                         /\ batches (mkView 0 0 0) 3 = Ok [].
+Proof. split; reflexivity. Qed.
+
+Theorem C17_batches_panics : forall (v : view) (n : Z), n < 0 -> batches v n = Panic PDocN.
+Proof. exact batches_negative. Qed.
+Print Assumptions C17_batches_panics.
+Example C17_batches_panics_ex : batches (mkView 2 7 9) (-1) = Panic PDocN.
 Proof. reflexivity. Qed.
